@@ -303,7 +303,9 @@ DoMapRemoved(s, e) ==
      THEN LET a == Vif(s2, cur # e.e, "C01", "removed_slot_of_another_entry")
               b0 == Vif(a, e.reason = "EXPIRED" /\ (o.dl = 0 \/ o.dl > s.now), "C04", "expired_before_deadline")
               \* C05: the reason is the true one - EXPIRED only for an entry whose deadline has passed
-              b == Vif(b0, e.reason = "EXPIRED" /\ (o.dl = 0 \/ o.dl > s.now), "C05", "expired_reason_for_entry_whose_deadline_has_not_passed")
+              b1 == Vif(b0, e.reason = "EXPIRED" /\ (o.dl = 0 \/ o.dl > s.now), "C05", "expired_reason_for_entry_whose_deadline_has_not_passed")
+              \* C06: a stored value disappears only through Delete, its own deadline or eviction under pressure
+              b == Vif(b1, e.reason = "EXPIRED" /\ (o.dl = 0 \/ o.dl > s.now), "C06", "stored_value_removed_as_expired_before_its_deadline_or_without_one")
           IN [b EXCEPT !.mp = [s.mp EXCEPT ![o.k] = IF cur = e.e THEN 0 ELSE @], !.una = @ \ {e.e},
                        !.pn = Put(b.pn, e.p, <<e.e, e.reason>>)]
      ELSE Vif(s2, cur = e.e /\ e.e # 0 /\ ~s.closed, "C01", "identity_removal_failed_on_present_entry")
